@@ -176,6 +176,33 @@ func (in *Exec) sprintf(fr *frame, format value, args value) Str {
 		if !isI || ia.t == nil {
 			return in.opaqueStr()
 		}
+		if f[j] == 'x' && len(verb) == 2 {
+			// %x of a byte array / slice with symbolic bytes: two lower-case hex digits per byte
+			var bs []value
+			switch bv := ia.v.(type) {
+			case array:
+				bs = bv
+			case []value:
+				bs = bv
+			}
+			if bs != nil {
+				okAll := true
+				for _, e := range bs {
+					t, isT := e.(*Term)
+					if !isT || t.W != 8 {
+						okAll = false
+						break
+					}
+					for _, nib := range []*Term{in.tb.Bin(OpLshr, t, in.tb.Const(8, 4)), in.tb.Bin(OpBAnd, t, in.tb.Const(8, 15))} {
+						out = append(out, in.tb.Ite(in.tb.Ult(nib, in.tb.Const(8, 10)), in.tb.Bin(OpAdd, nib, in.tb.Const(8, '0')), in.tb.Bin(OpAdd, nib, in.tb.Const(8, 'a'-10))))
+					}
+				}
+				if okAll {
+					continue
+				}
+				return in.opaqueStr()
+			}
+		}
 		sv, isStr := ia.v.(Str)
 		if !isStr || sv.Opaque || len(verb) != 2 {
 			return in.opaqueStr()
